@@ -5,12 +5,14 @@ from . import common as C
 from .hgsim import rattr, observe, obs_to_gallina, dedup_named, bunch_arg
 
 ITER_OK = True     # member collections may be presented as tuples / one-shot iterators (common.members)
-STYLES = ["int", "int", "int", "str"]
+STYLES = ["int", "int", "int", "str", "mixed"]
 
 
 def make_pool(rng, style):
     if style == "int":
         return list(range(0, 7)), [0, 1, 2, 3, 5, 8, 12, -1]
+    if style == "mixed":
+        return [1, 2, 3, "a", "b", 10], [0, 2, "e", "f", 7, 4]
     return ["a", "b", "c", "d", "e", "f"], ["s0", "s1", "x", "y"]
 
 
@@ -61,6 +63,10 @@ def gen_op(rng, S, nodes, eids, malformed):
             if fmt == 1:
                 if i == 0 and not ms and not malformed:
                     ms = [nodes[0]]
+                if i == 0 and ms and isinstance(ms[0], (str, tuple)) and not all(isinstance(x, str) for x in ms):
+                    # the documented ambiguity of a caller's format-1 bunch whose first simplex starts with a str / tuple label
+                    # among other kinds (it reads as another format): keep the caller's input clear of it, as hgsim does
+                    ms = [x for x in ms if isinstance(x, str)]
                 items.append(ms)
             elif fmt == 2:
                 items.append((ms, some_edge(0.85)))
